@@ -1,14 +1,20 @@
 import NeumannModel.TxWal.Demo
+import NeumannModel.TxWal.LemmasSync
 /-
   C13 — 2PC coordinator restart preserves every logged decision.
   ONLY the property theorems and their non-vacuity examples; helpers are in `Lemmas.lean`.
 
   A *run* is any list of `Step`s (lock / begin / vote / commit / abort / complete_commit /
-  complete_abort / cleanup_timeouts / process_pending_aborts / recover_from_wal on the live
-  coordinator / crash) from a fresh coordinator over an empty file.  `crash n now` cuts the FILE
-  (the bytes `fileOf crc ser log`) to its first `n` bytes — any `n` — discards all memory, reopens
-  with the tail repair and runs `recover_from_wal`.  `Valid` only asks that `begin` uses a fresh
-  id and that the records in the file at a crash are well-formed (`CodecOK`).
+  complete_abort / force_resolve / cleanup_timeouts / process_pending_aborts / recover_from_wal on
+  the live coordinator / recover / get_pending_decisions / crash) from a fresh coordinator over an
+  empty file.  `crash n now cfg'` cuts the FILE (the bytes `fileOf crc ser log`) to its first `n`
+  bytes — any `n` — discards all memory, reopens with the tail repair under configuration `cfg'`
+  and runs `recover_from_wal`.  `Valid` only asks that `begin` uses a fresh id and that the records
+  in the file at a crash are well-formed (`CodecOK`).
+  Every WAL append may FAIL: the configuration carries the size limit of the file
+  (`walCap`, `autoRotate = false` ⇒ `SizeLimitExceeded`), and each call reacts to the failed write as
+  the code does (`?`, `Ok(None)`, or carry on).  With `autoRotate = true` the limit rotates the
+  file instead; theorems that need the log to keep its records ask for `Cfg.NoRotate`.
 -/
 namespace Neumann.TxWal.Props
 open Neumann.TxWal Neumann.FramedLog Neumann.TxWal.Demo
@@ -34,31 +40,37 @@ theorem restart_sees_whole_records (cfg : Cfg) (L : List Entry) (n now : Nat)
   omega
 
 /-- the byte-level crash step of a run is the log-prefix restart -/
-theorem crash_is_prefix_restart (c : Coord) (n now : Nat) (h : CodecOK crc ser de c.log) :
-    (step crc ser de c (.crash n now)).1
-      = restartLog c.cfg (c.log.take (wholeWithin crc (c.log.map ser) n)) now := by
-  rw [step_crash_eq crc ser de c n now h]
+theorem crash_is_prefix_restart (c : Coord) (n now : Nat) (cfg' : Cfg) (h : CodecOK crc ser de c.log) :
+    (step crc ser de c (.crash n now cfg')).1
+      = restartLog cfg' (c.log.take (wholeWithin crc (c.log.map ser) n)) now := by
+  rw [step_crash_eq crc ser de c n now cfg' h]
 
 example : CodecOK Crc32.crc32 toySer toyDe demoPre.log := by decide
 example : (fileOf Crc32.crc32 toySer demoPre.log).length = 91 ∧ demoPre.log.length = 10 := by decide
+-- checksums switched off (`enable_checksums = false`: the stored checksum is 0 and replay skips
+-- the comparison) is the instance `crc := fun _ => 0` of every theorem of this file
+example : CodecOK (fun _ => 0) toySer toyDe demoPre.log := by decide
 
 /-! ### logged outcomes are final -/
 
 /-- **A logged outcome is never reversed.**  In every state reachable by any valid run (any mix
-    of operations, any byte cuts, any number of restarts): if a `TxComplete(id, o)` record is in
-    the log then (1) it is the only outcome the log holds for `id`, (2) `id` is not pending, and
-    (3) whatever is called next — commit, abort, complete_*, cleanup_timeouts, recover_from_wal,
-    another crash at any byte — reports nothing about `id` (no commit, no abort, no timeout) and
-    leaves no other outcome for `id` in the log.  Since this holds in *every* reachable state, it
-    holds after any number of further restarts and calls, for as long as the record itself lies
-    inside the surviving prefix (a record cut away by a later crash was not durable). -/
+    of operations, WAL writes failing or the file rotating at any point, any byte cuts, any number
+    of restarts under any configurations): if a `TxComplete(id, o)` record is in the log then
+    (1) it is the only outcome the log holds for `id`, (2) `id` is not pending, and (3) whatever
+    is called next — commit, abort, complete_*, force_resolve, cleanup_timeouts, recover,
+    recover_from_wal, another crash at any byte — reports nothing about `id` (no commit, no abort,
+    no timeout) and leaves no other outcome for `id` in the log.  Since this holds in *every*
+    reachable state, it holds after any number of further restarts and calls, for as long as the
+    record itself lies inside the surviving prefix (a record cut away by a later crash was not
+    durable). -/
 theorem logged_outcome_never_reversed (cfg : Cfg) (steps : List Step)
     (hv : Valid crc ser de { cfg := cfg } steps) (id : Nat) (o : Outcome)
     (hlog : Entry.txComplete id o ∈ (run crc ser de { cfg := cfg } steps).log) :
     (∀ o', Entry.txComplete id o' ∈ (run crc ser de { cfg := cfg } steps).log → o' = o)
     ∧ mLookup id (run crc ser de { cfg := cfg } steps).pending = none
     ∧ ∀ s, StepOK crc ser de (run crc ser de { cfg := cfg } steps) s →
-        (∀ ev ∈ events s (step crc ser de (run crc ser de { cfg := cfg } steps) s).2, ev.id ≠ id)
+        (∀ ev ∈ events (run crc ser de { cfg := cfg } steps) s
+                  (step crc ser de (run crc ser de { cfg := cfg } steps) s).2, ev.id ≠ id)
         ∧ (∀ o', Entry.txComplete id o' ∈ (step crc ser de (run crc ser de { cfg := cfg } steps) s).1.log → o' = o) := by
   have hi := Inv_run crc ser de _ steps (Inv_fresh cfg) hv
   generalize run crc ser de { cfg := cfg } steps = c at hi hlog
@@ -72,22 +84,23 @@ theorem logged_outcome_never_reversed (cfg : Cfg) (steps : List Step)
       rw [heq] at this
       exact hi.pendingOpen id this ⟨o, hlog⟩
     · intro o' h'
-      by_cases hc : ∃ n now, s = Step.crash n now
-      · obtain ⟨n, now, rfl⟩ := hc
-        rw [step_crash_eq crc ser de c n now hs] at h'
-        have hl : (restartLog c.cfg (c.log.take (wholeWithin crc (c.log.map ser) n)) now).log
+      by_cases hc : ∃ n now cfg', s = Step.crash n now cfg'
+      · obtain ⟨n, now, cfg', rfl⟩ := hc
+        rw [step_crash_eq crc ser de c n now cfg' hs] at h'
+        have hl : (restartLog cfg' (c.log.take (wholeWithin crc (c.log.map ser) n)) now).log
             = c.log.take (wholeWithin crc (c.log.map ser) n) := rfl
         rw [hl] at h'
         exact hi.oneOutcome id o' o (List.mem_of_mem_take h') hlog
-      · have hs' : ∀ n now, s ≠ Step.crash n now := fun n now h => hc ⟨n, now, h⟩
-        obtain ⟨es, hes⟩ := step_log_grows crc ser de c s hs'
-        have hi' := Inv_step crc ser de c s hi hs
-        exact hi'.oneOutcome id o' o h' (by rw [hes]; exact List.mem_append_left _ hlog)
+      · have hs' : ∀ n now cfg', s ≠ Step.crash n now cfg' := fun n now cfg' h => hc ⟨n, now, cfg', h⟩
+        rcases step_complete_new crc ser de c s hs' id o' h' with h | h
+        · exact hi.oneOutcome id o' o h hlog
+        · exact absurd ⟨o, hlog⟩ (hi.pendingOpen id h)
 
-/-- a logged record stays in the log under every call that is not a crash -/
-theorem logged_record_persists (c : Coord) (s : Step) (e : Entry)
-    (hs : ∀ n now, s ≠ Step.crash n now) (he : e ∈ c.log) : e ∈ (step crc ser de c s).1.log := by
-  obtain ⟨es, hes⟩ := step_log_grows crc ser de c s hs
+/-- a logged record stays in the log under every call that is not a crash, unless the size
+    limit rotates the file -/
+theorem logged_record_persists (c : Coord) (hn : c.cfg.NoRotate) (s : Step) (e : Entry)
+    (hs : ∀ n now cfg', s ≠ Step.crash n now cfg') (he : e ∈ c.log) : e ∈ (step crc ser de c s).1.log := by
+  obtain ⟨es, hes⟩ := step_log_grows crc ser de c hn s hs
   rw [hes]; exact List.mem_append_left _ he
 
 -- non-vacuity: the demo run (with its crash inside the commit's records) is valid, the commit's
@@ -97,46 +110,56 @@ example : Entry.txComplete 1 .committed ∈ (run Crc32.crc32 toySer toyDe { cfg 
   rw [demo_run]; decide
 example : (step Crc32.crc32 toySer toyDe (restartLog demoCfg (demoPre.log.take 7) 200) (.abort 1)).2
     = Res.notFound := by decide
+example : (step Crc32.crc32 toySer toyDe (restartLog demoCfg (demoPre.log.take 7) 200) (.forceResolve 1 false)).2
+    = Res.notFound ∧ (step Crc32.crc32 toySer toyDe (restartLog demoCfg (demoPre.log.take 7) 200) (.recoverMem 99999)).2
+    = Res.recStats 0 0 0 0 0 := by decide
 -- the crash really tore records away: 10 records before, 7 after
 example : demoPre.log.length = 10 ∧ (restartLog demoCfg (demoPre.log.take 7) 200).log.length = 7 := by decide
+example : demoCfg.NoRotate := by decide
+
+/-- **An answer and the log agree.**  As long as the size limit does not rotate the file:
+    `commit` / `abort` answer ok only with the TxComplete record of that outcome in the log, and
+    when they answer anything else (not found, wrong phase, a failed WAL write at either record)
+    the log holds no outcome it did not hold before — the outcome is logged before it is
+    acknowledged, and a write that failed acknowledges nothing. -/
+theorem outcome_answer_matches_log (c : Coord) (hn : c.cfg.NoRotate) (id : Nat) :
+    ((step crc ser de c (.commit id)).2 = Res.ok →
+        Entry.txComplete id .committed ∈ (step crc ser de c (.commit id)).1.log)
+    ∧ ((step crc ser de c (.commit id)).2 ≠ Res.ok → ∀ x o,
+        Entry.txComplete x o ∈ (step crc ser de c (.commit id)).1.log → Entry.txComplete x o ∈ c.log)
+    ∧ ((step crc ser de c (.abort id)).2 = Res.ok →
+        Entry.txComplete id .aborted ∈ (step crc ser de c (.abort id)).1.log)
+    ∧ ((step crc ser de c (.abort id)).2 ≠ Res.ok → ∀ x o,
+        Entry.txComplete x o ∈ (step crc ser de c (.abort id)).1.log → Entry.txComplete x o ∈ c.log) :=
+  ⟨(commit_answer_log _ c hn id).1, (commit_answer_log _ c hn id).2,
+   (abort_answer_log _ c hn id).1, (abort_answer_log _ c hn id).2⟩
+
+-- non-vacuity: on the 40-byte WAL that refuses to grow, the commit of the prepared transaction of
+-- the demo (its PhaseChange does not fit) answers a WAL error
+example : (step Crc32.crc32 toySer toyDe
+    { (run Crc32.crc32 toySer toyDe { cfg := demoCfg } (demoSteps.take 6)) with cfg := demoFullCfg } (.commit 1)).2
+    = Res.walErr := by decide
 
 /-! ### locks -/
 
-/-- **Completion releases the locks.**  When commit / abort / complete_commit / complete_abort
-    succeeds for a transaction, or cleanup_timeouts times it out, every lock handle of a YES vote
-    it holds in memory is gone from the lock table; `recover_from_wal` releases every orphaned
-    handle it reports; and a restarted coordinator starts with an empty lock table. -/
+/-- **Completion releases the locks.**  When commit / abort / complete_commit / complete_abort /
+    force_resolve succeeds for a transaction, or cleanup_timeouts times it out, every lock handle
+    of a YES vote it holds in memory is gone from the lock table; `recover_from_wal` releases
+    every orphaned handle it reports; and a restarted coordinator starts with an empty lock
+    table. -/
 theorem completed_locks_released (c : Coord) :
-    (∀ s id tx, (s = Step.commit id ∨ s = Step.abort id ∨ s = Step.completeCommit id ∨ s = Step.completeAbort id) →
+    (∀ s id tx, (s = Step.commit id ∨ s = Step.abort id ∨ s = Step.completeCommit id ∨ s = Step.completeAbort id
+                  ∨ ∃ b, s = Step.forceResolve id b) →
         mLookup id c.pending = some tx → (step crc ser de c s).2 = Res.ok →
         ∀ h ∈ voteHandles tx.votes, ∀ t, (h, t) ∉ (step crc ser de c s).1.locks)
     ∧ (∀ now id tx, (id, tx) ∈ c.pending → tx.timedOut now = true →
         ∀ h ∈ voteHandles tx.votes, ∀ t, (h, t) ∉ (cleanupTimeouts c now).1.locks)
     ∧ (∀ now p, p ∈ (fromEntries c.log).orphaned → ∀ t, (p.2, t) ∉ (recoverFromWal c now).1.locks)
-    ∧ (∀ n now, CodecOK crc ser de c.log → (step crc ser de c (.crash n now)).1.locks = []) := by
+    ∧ (∀ n now cfg', CodecOK crc ser de c.log → (step crc ser de c (.crash n now cfg')).1.locks = []) := by
   refine ⟨?_, ?_, ?_, ?_⟩
   · intro s id tx hs hl hok h hh t hmem
-    rcases hs with rfl | rfl | rfl | rfl
-    · simp only [step, commit, hl] at hok hmem
-      split at hok
-      · cases hok
-      · rename_i hp
-        simp only [hp, if_false] at hmem
-        exact ((mem_releaseAll _ _ _).mp hmem).2 hh
-    · simp only [step, abort, hl] at hmem
-      exact ((mem_releaseAll _ _ _).mp hmem).2 hh
-    · simp only [step, completeCommit, hl] at hok hmem
-      split at hok
-      · cases hok
-      · rename_i hp
-        simp only [hp, if_false] at hmem
-        exact ((mem_releaseAll _ _ _).mp hmem).2 hh
-    · simp only [step, completeAbort, hl] at hok hmem
-      split at hok
-      · cases hok
-      · rename_i hp
-        simp only [hp, if_false] at hmem
-        exact ((mem_releaseAll _ _ _).mp hmem).2 hh
+    rw [step_ok_locks crc ser de c s id tx hs hl hok] at hmem
+    exact ((mem_releaseAll _ _ _).mp hmem).2 hh
   · intro now id tx hp hto h hh t hmem
     simp only [cleanupTimeouts] at hmem
     have := ((mem_releaseAll _ _ _).mp hmem).2
@@ -149,8 +172,8 @@ theorem completed_locks_released (c : Coord) :
     apply this
     simp only [List.mem_map]
     exact ⟨p, hp, rfl⟩
-  · intro n now h
-    rw [step_crash_eq crc ser de c n now h]
+  · intro n now cfg' h
+    rw [step_crash_eq crc ser de c n now cfg' h]
     simp [restartLog, recoverFromWal, releaseAll]
     generalize ((fromEntries _).orphaned.map _) = hs
     induction hs with
@@ -161,38 +184,159 @@ theorem completed_locks_released (c : Coord) :
 example : (run Crc32.crc32 toySer toyDe { cfg := demoCfg } (demoSteps.take 6)).locks = [(8, 1), (7, 1)]
     ∧ demoPre.locks = [] := by decide
 
+/-! ### memory never runs ahead of the log -/
+
+/-- **Log before state change.**  In every state reachable by any valid run — WAL writes may fail
+    at any record of any call, the file may be cut at any byte, any number of restarts — whose
+    configurations never rotate the file: every pending transaction is in progress in the scan of
+    the log with the same participants, and what memory claims is already logged:
+    Preparing in memory ⇒ Preparing in the log; Prepared in memory ⇒ Prepared in the log;
+    Committing in memory ⇒ Prepared or Committing in the log (`recover()` moves Prepared to
+    Committing without writing); and while the transaction is Preparing in memory, or Prepared /
+    Committing in the log, the log's votes are exactly the votes memory holds (as `record_vote`
+    writes them: shard ↦ YES(handle) / NO).  A transaction in a final phase is never pending. -/
+theorem memory_never_ahead_of_log (cfg : Cfg) (steps : List Step) (hcfg : cfg.NoRotate)
+    (hv : Valid crc ser de { cfg := cfg } steps) (hnr : NoRotateSteps steps) (x : Nat) (tx : Tx)
+    (hm : (x, tx) ∈ (run crc ser de { cfg := cfg } steps).pending) :
+    ∃ ip, (x, ip) ∈ (scan (run crc ser de { cfg := cfg } steps).log).inProgress
+      ∧ ip.parts = tx.parts
+      ∧ (tx.phase = .preparing → ip.phase = .preparing)
+      ∧ (tx.phase = .prepared → ip.phase = .prepared)
+      ∧ (tx.phase = .committing → ip.phase = .prepared ∨ ip.phase = .committing)
+      ∧ (tx.phase = .preparing ∨ ip.phase = .prepared ∨ ip.phase = .committing →
+          ∀ s, mLookup s ip.votes = (mLookup s tx.votes).map Vote.kind)
+      ∧ tx.phase ≠ .committed ∧ tx.phase ≠ .aborted := by
+  have hg := Good_run crc ser de _ [] steps (Good_fresh cfg hcfg) hv hnr
+  obtain ⟨ip, hip, hs⟩ := hg.sync x tx hm
+  exact ⟨ip, (ipOf_iff_mem _ _ _).mp hip, hs⟩
+
+-- non-vacuity: the demo run up to the second YES vote is valid, never rotates, and holds
+-- transaction 1 as Prepared in memory
+example : Valid Crc32.crc32 toySer toyDe { cfg := demoCfg } (demoSteps.take 6) ∧ NoRotateSteps (demoSteps.take 6)
+    ∧ (mLookup 1 (run Crc32.crc32 toySer toyDe { cfg := demoCfg } (demoSteps.take 6)).pending).map (·.phase)
+        = some .prepared := by decide
+-- ... and on the 40-byte WAL that refuses to grow the same calls are a valid run in which the
+-- PhaseChange -> Prepared cannot be written: `record_vote` answers Ok(None), memory holds both votes
+-- and stays Preparing, the log holds the four records that fitted
+example : Valid Crc32.crc32 toySer toyDe { cfg := demoFullCfg } (demoSteps.take 6) ∧ demoFullCfg.NoRotate
+    ∧ (step Crc32.crc32 toySer toyDe (run Crc32.crc32 toySer toyDe { cfg := demoFullCfg } (demoSteps.take 5))
+        (.vote 1 1 (.yes 8) false)).2 = Res.phase none
+    ∧ (mLookup 1 (run Crc32.crc32 toySer toyDe { cfg := demoFullCfg } (demoSteps.take 6)).pending).map
+        (fun t => (t.phase, t.votes.length)) = some (.preparing, 2)
+    ∧ (run Crc32.crc32 toySer toyDe { cfg := demoFullCfg } (demoSteps.take 6)).log.length = 4 := by decide
+
 /-! ### what comes back after a restart -/
 
-/-- **Prepared transactions come back with their votes and can be completed.**  Cut the file of
-    any coordinator state at any byte and restart.  Every transaction that the surviving records
-    show as `Prepared` (all votes collected, no outcome: the scan of the surviving log holds it in
-    phase Prepared) is pending again in phase `Prepared` with its participants and exactly the
-    votes the scan kept; `commit` then succeeds and logs `TxComplete(Committed)`, and `abort`
-    succeeds and logs `TxComplete(Aborted)`.  The scan keeps at most one vote per shard, so
-    `restore_tx` never overwrites a vote (this is what the pre-fix scan violated, see
-    `rejected_vote_overwrites_witness`).
-    `_partial`: "the votes the scan keeps" are the first vote logged per shard while the
-    transaction was Preparing; that these coincide with the votes `record_vote` accepted in the
-    memory of the crashed process is not proved here as a run invariant — it is checked on the real
-    coordinator by the harness oracle (accepted-votes bookkeeping). -/
-theorem prepared_come_back_with_votes_partial (c : Coord) (n now : Nat)
-    (h : CodecOK crc ser de c.log) (x : Nat) (ip : InProg)
+/-- **Prepared transactions come back with the votes the coordinator had accepted.**  Take any
+    valid run (failing WAL writes, cuts and restarts included; no rotation), cut the file at any
+    byte and restart under any configuration.  Every transaction the surviving records show as
+    `Prepared` (all votes collected, no outcome) is pending again in phase `Prepared`, restored
+    from exactly what the scan kept — and that is one of the acknowledgements `record_vote` gave
+    during the run (`acks`: the transaction as memory held it when the call answered
+    `Ok(Some(Prepared))`): same participants, the same vote for every shard, every participant
+    voted and every vote YES.  The scan keeps at most one vote per shard, so `restore_tx` never
+    overwrites a vote (what the pre-fix scan violated, see `rejected_vote_overwrites_witness`),
+    and the restored transaction is again all-YES. -/
+theorem prepared_come_back_with_votes (cfg : Cfg) (steps : List Step) (hcfg : cfg.NoRotate)
+    (hv : Valid crc ser de { cfg := cfg } steps) (hnr : NoRotateSteps steps) (n now : Nat) (cfg' : Cfg)
+    (h : CodecOK crc ser de (run crc ser de { cfg := cfg } steps).log) (x : Nat) (ip : InProg)
+    (hm : (x, ip) ∈ (scan ((run crc ser de { cfg := cfg } steps).log.take
+            (wholeWithin crc ((run crc ser de { cfg := cfg } steps).log.map ser) n))).inProgress)
+    (hp : ip.phase = .prepared) :
+    mLookup x (step crc ser de (run crc ser de { cfg := cfg } steps) (.crash n now cfg')).1.pending
+        = some (restoreTx ⟨x, ip.parts, ip.votes⟩ .prepared now)
+    ∧ (∃ tx, (x, tx) ∈ acks crc ser de { cfg := cfg } steps ∧ ip.parts = tx.parts
+          ∧ (∀ s, mLookup s ip.votes = (mLookup s tx.votes).map Vote.kind)
+          ∧ tx.allVoted = true ∧ tx.allYes = true)
+    ∧ (mKeys ip.votes).Nodup
+    ∧ (restoreTx ⟨x, ip.parts, ip.votes⟩ .prepared now).allYes = true := by
+  have hg := Good_run crc ser de _ [] steps (Good_fresh cfg hcfg) hv hnr
+  generalize run crc ser de { cfg := cfg } steps = c at hg h hm
+  rw [step_crash_eq crc ser de c n now cfg' h]
+  have hnd := scan_votes_one_per_shard _ x ip hm
+  obtain ⟨tx, h1, h2, h3, h4, h5⟩ :=
+    hg.ph (wholeWithin crc (c.log.map ser) n) x ip ((ipOf_iff_mem _ _ _).mpr hm) hp
+  refine ⟨restart_prepared cfg' _ now x ip hm hp, ⟨tx, by simpa using h1, h2, h3, h4, h5⟩, hnd, ?_⟩
+  exact restoreTx_allYes x ip .prepared now (votes_yes_of_ack ip.votes tx h3 hnd h5)
+
+/-- **... and can be driven to completion.**  A restored Prepared transaction can be committed
+    or aborted: with a WAL that accepts the records, `commit` succeeds and logs
+    `TxComplete(Committed)`, and `abort` succeeds and logs `TxComplete(Aborted)`. -/
+theorem recovered_prepared_can_be_completed (c : Coord) (n now : Nat) (cfg' : Cfg)
+    (h : CodecOK crc ser de c.log) (hcap : cfg'.walCap = none) (x : Nat) (ip : InProg)
     (hm : (x, ip) ∈ (scan (c.log.take (wholeWithin crc (c.log.map ser) n))).inProgress)
     (hp : ip.phase = .prepared) :
-    mLookup x (step crc ser de c (.crash n now)).1.pending
-        = some (restoreTx ⟨x, ip.parts, ip.votes⟩ .prepared now)
-    ∧ (mKeys ip.votes).Nodup
-    ∧ (commit (step crc ser de c (.crash n now)).1 x).2 = Res.ok
-    ∧ Entry.txComplete x .committed ∈ (commit (step crc ser de c (.crash n now)).1 x).1.log
-    ∧ (abort (step crc ser de c (.crash n now)).1 x).2 = Res.ok
-    ∧ Entry.txComplete x .aborted ∈ (abort (step crc ser de c (.crash n now)).1 x).1.log := by
-  rw [step_crash_eq crc ser de c n now h]
-  have hl := restart_prepared c.cfg _ now x ip hm hp
-  refine ⟨hl, scan_votes_one_per_shard _ x ip hm, ?_, ?_, ?_, ?_⟩
-  · simp [commit, hl, restoreTx]
-  · simp [commit, hl, restoreTx, Coord.append]
-  · simp [abort, hl]
-  · simp [abort, hl, Coord.append]
+    (step crc ser de (step crc ser de c (.crash n now cfg')).1 (.commit x)).2 = Res.ok
+    ∧ Entry.txComplete x .committed ∈ (step crc ser de (step crc ser de c (.crash n now cfg')).1 (.commit x)).1.log
+    ∧ (step crc ser de (step crc ser de c (.crash n now cfg')).1 (.abort x)).2 = Res.ok
+    ∧ Entry.txComplete x .aborted ∈ (step crc ser de (step crc ser de c (.crash n now cfg')).1 (.abort x)).1.log := by
+  rw [step_crash_eq crc ser de c n now cfg' h]
+  have hl := restart_prepared cfg' _ now x ip hm hp
+  have hc : (restartLog cfg' (c.log.take (wholeWithin crc (c.log.map ser) n)) now).cfg.walCap = none := hcap
+  have h1 := commit_noCap (recSize ser) _ hc x _ hl rfl
+  have h2 := abort_noCap (recSize ser) _ hc x _ hl
+  exact ⟨h1.1, h1.2, h2.1, h2.2⟩
+
+/-- **`recover()` decides a restored Prepared transaction by its votes.**  After the restart of
+    the previous theorem, `recover()` called before the restored transaction's 5000 ms timeout
+    moves it to Committing (its votes are the acknowledged all-YES votes); it is then listed by
+    `get_pending_decisions()` as a commit — and not as an abort — and `complete_commit` finishes
+    it. -/
+theorem recovered_prepared_is_driven_to_commit (cfg : Cfg) (steps : List Step) (hcfg : cfg.NoRotate)
+    (hv : Valid crc ser de { cfg := cfg } steps) (hnr : NoRotateSteps steps) (n now : Nat) (cfg' : Cfg)
+    (h : CodecOK crc ser de (run crc ser de { cfg := cfg } steps).log) (x : Nat) (ip : InProg)
+    (hm : (x, ip) ∈ (scan ((run crc ser de { cfg := cfg } steps).log.take
+            (wholeWithin crc ((run crc ser de { cfg := cfg } steps).log.map ser) n))).inProgress)
+    (hp : ip.phase = .prepared) (now' : Nat) (hto : now' - now ≤ 5000) :
+    mLookup x (recoverMem (step crc ser de (run crc ser de { cfg := cfg } steps) (.crash n now cfg')).1 now').1.pending
+        = some { restoreTx ⟨x, ip.parts, ip.votes⟩ .prepared now with phase := .committing }
+    ∧ (x, Phase.committing) ∈ pendingDecisions
+        (recoverMem (step crc ser de (run crc ser de { cfg := cfg } steps) (.crash n now cfg')).1 now').1
+    ∧ (x, Phase.aborting) ∉ pendingDecisions
+        (recoverMem (step crc ser de (run crc ser de { cfg := cfg } steps) (.crash n now cfg')).1 now').1
+    ∧ (completeCommit
+        (recoverMem (step crc ser de (run crc ser de { cfg := cfg } steps) (.crash n now cfg')).1 now').1 x).2 = Res.ok := by
+  obtain ⟨hl, _, _, hy⟩ := prepared_come_back_with_votes crc ser de cfg steps hcfg hv hnr n now cfg' h x ip hm hp
+  have hg := Good_run crc ser de _ [] steps (Good_fresh cfg hcfg) hv hnr
+  have hpn := PN_step crc ser de _ (.crash n now cfg') hg.pn
+  generalize (step crc ser de (run crc ser de { cfg := cfg } steps) (.crash n now cfg')).1 = c1 at hl hpn
+  have hnto : (restoreTx ⟨x, ip.parts, ip.votes⟩ .prepared now).timedOut now' = false := by
+    simp only [Tx.timedOut, restoreTx]; exact decide_eq_false (by omega)
+  obtain ⟨h1, h2, h3⟩ := recoverMem_commits c1 hpn x _ now' hl rfl hy hnto
+  refine ⟨h1, h2, ?_, h3⟩
+  intro hmem
+  simp only [pendingDecisions, List.mem_map, List.mem_filter] at hmem
+  obtain ⟨q, ⟨hq, _⟩, he⟩ := hmem
+  have hpn' : PN (recoverMem c1 now').1 := by
+    have := PN_step (fun _ => 0) (fun _ => []) (fun _ => none) c1 (.recoverMem now') hpn
+    simpa [step] using this
+  obtain ⟨qx, qt⟩ := q
+  simp only [Prod.mk.injEq] at he
+  obtain ⟨rfl, hph⟩ := he
+  have := mem_unique_of_nodup _ hpn' qx qt _ hq (mLookup_some_mem _ _ _ h1)
+  rw [this] at hph
+  cases hph
+
+/-- **What memory holds as Prepared is durable.**  In any reachable state of a valid run (failing
+    writes included, no rotation), a transaction that is Prepared in memory survives the loss of
+    the process: restart on the whole file brings it back Prepared with the same participants and,
+    shard by shard, the votes memory held (a Conflict vote comes back as NO, as logged). -/
+theorem prepared_in_memory_is_durable (cfg : Cfg) (steps : List Step) (hcfg : cfg.NoRotate)
+    (hv : Valid crc ser de { cfg := cfg } steps) (hnr : NoRotateSteps steps) (n now : Nat) (cfg' : Cfg)
+    (h : CodecOK crc ser de (run crc ser de { cfg := cfg } steps).log)
+    (hn : (fileOf crc ser (run crc ser de { cfg := cfg } steps).log).length ≤ n) (x : Nat) (tx : Tx)
+    (hm : (x, tx) ∈ (run crc ser de { cfg := cfg } steps).pending) (hp : tx.phase = .prepared) :
+    ∃ t', mLookup x (step crc ser de (run crc ser de { cfg := cfg } steps) (.crash n now cfg')).1.pending = some t'
+      ∧ t'.parts = tx.parts ∧ t'.phase = .prepared
+      ∧ ∀ s, mLookup s t'.votes = (mLookup s tx.votes).map (fun v => v.kind.restore) := by
+  obtain ⟨ip, hip, h0, _, h2, _, h4, _, _⟩ := memory_never_ahead_of_log crc ser de cfg steps hcfg hv hnr x tx hm
+  have hw := (restart_sees_whole_records crc ser de cfg' _ n now h).2 hn
+  rw [step_crash_eq crc ser de _ n now cfg' h, hw, List.take_length]
+  refine ⟨_, restart_prepared cfg' _ now x ip hip (h2 hp), h0, rfl, ?_⟩
+  intro s
+  simp only [restoreTx]
+  rw [lookup_restore ip.votes (scan_votes_one_per_shard _ x ip hip) s, h4 (Or.inr (Or.inl (h2 hp))) s]
+  cases mLookup s tx.votes <;> rfl
 
 /-- **Transactions still collecting votes are forgotten, without locks.**  After a crash at any
     byte and restart: (1) everything pending was classified by the scan of the surviving log as
@@ -200,25 +344,25 @@ theorem prepared_come_back_with_votes_partial (c : Coord) (n now : Nat)
     Preparing comes back; (2) a transaction for which no PhaseChange record survived (it was still
     collecting votes, or had only reached an unlogged in-memory abort) is not pending, and
     commit / abort on it answer `not found`; (3) the lock table of the new process is empty. -/
-theorem preparing_forgotten_without_locks (c : Coord) (n now : Nat) (h : CodecOK crc ser de c.log) :
-    (∀ x tx, mLookup x (step crc ser de c (.crash n now)).1.pending = some tx →
+theorem preparing_forgotten_without_locks (c : Coord) (n now : Nat) (cfg' : Cfg) (h : CodecOK crc ser de c.log) :
+    (∀ x tx, mLookup x (step crc ser de c (.crash n now cfg')).1.pending = some tx →
         (tx.phase = .prepared ∨ tx.phase = .committing ∨ tx.phase = .aborting)
         ∧ ∃ ip, (x, ip) ∈ (scan (c.log.take (wholeWithin crc (c.log.map ser) n))).inProgress
               ∧ tx = restoreTx ⟨x, ip.parts, ip.votes⟩ ip.phase now)
     ∧ (∀ x, (∀ f t, Entry.phaseChange x f t ∉ c.log.take (wholeWithin crc (c.log.map ser) n)) →
-        mLookup x (step crc ser de c (.crash n now)).1.pending = none
-        ∧ (commit (step crc ser de c (.crash n now)).1 x).2 = Res.notFound
-        ∧ (abort (step crc ser de c (.crash n now)).1 x).2 = Res.notFound)
-    ∧ (step crc ser de c (.crash n now)).1.locks = [] := by
-  have hlocks := (completed_locks_released crc ser de c).2.2.2 n now h
-  rw [step_crash_eq crc ser de c n now h] at hlocks ⊢
+        mLookup x (step crc ser de c (.crash n now cfg')).1.pending = none
+        ∧ (step crc ser de (step crc ser de c (.crash n now cfg')).1 (.commit x)).2 = Res.notFound
+        ∧ (step crc ser de (step crc ser de c (.crash n now cfg')).1 (.abort x)).2 = Res.notFound)
+    ∧ (step crc ser de c (.crash n now cfg')).1.locks = [] := by
+  have hlocks := (completed_locks_released crc ser de c).2.2.2 n now cfg' h
+  rw [step_crash_eq crc ser de c n now cfg' h] at hlocks ⊢
   refine ⟨?_, ?_, hlocks⟩
   · intro x tx hl
     obtain ⟨ip, hm, hph, rfl⟩ := restart_pending _ _ _ _ _ hl
     exact ⟨by simpa [restoreTx] using hph, ip, hm, rfl⟩
   · intro x hno
-    have hnone : mLookup x (restartLog c.cfg (c.log.take (wholeWithin crc (c.log.map ser) n)) now).pending = none := by
-      cases hl : mLookup x (restartLog c.cfg (c.log.take (wholeWithin crc (c.log.map ser) n)) now).pending with
+    have hnone : mLookup x (restartLog cfg' (c.log.take (wholeWithin crc (c.log.map ser) n)) now).pending = none := by
+      cases hl : mLookup x (restartLog cfg' (c.log.take (wholeWithin crc (c.log.map ser) n)) now).pending with
       | none => rfl
       | some tx =>
         obtain ⟨ip, hm, hph, _⟩ := restart_pending _ _ _ _ _ hl
@@ -226,7 +370,7 @@ theorem preparing_forgotten_without_locks (c : Coord) (n now : Nat) (h : CodecOK
           rcases hph with h | h | h <;> (rw [h]; decide)
         obtain ⟨f, t, hft⟩ := scan_phase_logged _ x ip hm hne
         exact absurd hft (hno f t)
-    exact ⟨hnone, by simp [commit, hnone], by simp [abort, hnone]⟩
+    exact ⟨hnone, by simp [step, commit, hnone], by simp [step, abort, hnone]⟩
 
 -- non-vacuity: cut the demo file after the PhaseChange->Prepared record (byte 45..53): transaction
 -- 1 is Prepared in the surviving log and comes back with both YES votes; cut it before that record
@@ -235,6 +379,29 @@ example : (1, (⟨[0, 1], [(0, .yes 7), (1, .yes 8)], .prepared⟩ : InProg))
     ∈ (scan (demoPre.log.take (wholeWithin Crc32.crc32 (demoPre.log.map toySer) 50))).inProgress := by decide
 example : ∀ f t, Entry.phaseChange 1 f t ∉ demoPre.log.take (wholeWithin Crc32.crc32 (demoPre.log.map toySer) 40) := by
   intro f t; cases f <;> cases t <;> decide
+-- the run that leads to `demoPre` is valid and never rotates; its one acknowledgement is
+-- transaction 1 with the two accepted YES votes (the refused duplicate NO of shard 0 is not in it)
+example : Valid Crc32.crc32 toySer toyDe { cfg := demoCfg } (demoSteps.take 7) ∧ NoRotateSteps (demoSteps.take 7)
+    ∧ (acks Crc32.crc32 toySer toyDe { cfg := demoCfg } (demoSteps.take 7)).map (fun p => (p.1, p.2.votes))
+        = [(1, [(1, Vote.yes 8), (0, Vote.yes 7)])] := by decide
+example : demoCfg.walCap = none := rfl
+
+/-! ### rotation: outside `NoRotate` -/
+
+/-- **Size-limit rotation drops in-flight transactions from recovery.**  With `auto_rotate` (the
+    default) the append that exceeds `max_size_bytes` renames the current file away and starts a
+    fresh one; `replay` reads only the current file.  On the 40-byte demo WAL the PhaseChange ->
+    Prepared of transaction 1 rotates the file: memory holds the transaction as Prepared (and
+    `record_vote` answered Prepared), the file holds that single record, and a restart on the
+    whole file has forgotten the transaction.  (Not reachable within the property's 1–4
+    transactions at the default 1 GiB limit; reported by the harness as an observation.) -/
+theorem rotation_forgets_prepared_witness :
+    let c := run Crc32.crc32 toySer toyDe { cfg := demoRotCfg } (demoSteps.take 6)
+    (mLookup 1 c.pending).map (·.phase) = some .prepared
+    ∧ c.log = [Entry.phaseChange 1 .preparing .prepared]
+    ∧ mLookup 1 (restartLog demoRotCfg c.log 200).pending = none
+    ∧ ¬ demoRotCfg.NoRotate := by
+  decide
 
 /-! ### the defects the fixes removed, as concrete witnesses -/
 
